@@ -129,7 +129,12 @@ def main(argv):
             s = (seed * 1000 + TARGETS.index(t) * 50 + w) % (2**31 - 1) + 1
             cmd = [os.path.join(BIN, "fz_" + t), "-seed=%d" % s, "-runs=%d" % int(runs[t] * scale), "-entropic=0",
                    "-max_len=%d" % (4096 if t != "buildfile" else 2048), "-timeout=25",
-                   "-max_total_time=%d" % cap, "-artifact_prefix=" + art, "-print_final_stats=1", corpus]
+                   "-max_total_time=%d" % cap, "-artifact_prefix=" + art, "-print_final_stats=1"]
+            dic = {"ninja_lexer": "ninja.dict", "ninja_loader": "ninja.dict", "makefile_deps": "deps.dict"}.get(t)
+            if dic and w % 2 == 1:
+                # every other worker mutates with a dictionary of the format's keywords and fragments
+                cmd.append("-dict=" + os.path.join(VERIF, "fuzz", dic))
+            cmd.append(corpus)
             log = open(os.path.join(wdir, "log%d" % w), "wb")
             procs.append((t, w, subprocess.Popen(cmd, stdout=log, stderr=subprocess.STDOUT, env=e, cwd=wdir), log,
                           art, corpus, statf))
